@@ -821,7 +821,7 @@ fn query_family(text: &str, class: &'static str) -> &'static str {
         "varlen"
     } else if text.contains("(a)-[:S]->(a)") {
         "repeated_node_variable"
-    } else if text.contains("]-(") {
+    } else if has_undirected_relationship(text) {
         "undirected_relationship"
     } else if text.contains("OPTIONAL") {
         "optional_match"
@@ -841,6 +841,24 @@ fn query_family(text: &str, class: &'static str) -> &'static str {
     } else {
         class
     }
+}
+
+/// `-[..]-` with neither arrow head.
+fn has_undirected_relationship(text: &str) -> bool {
+    let b = text.as_bytes();
+    let mut i = 0;
+    while let Some(off) = text[i..].find("-[") {
+        let start = i + off;
+        let Some(close) = text[start..].find(']') else { break };
+        let end = start + close; // index of ']'
+        let left_arrow = start > 0 && b[start - 1] == b'<';
+        let right_arrow = text[end + 1..].starts_with("->");
+        if !left_arrow && !right_arrow && text[end + 1..].starts_with('-') {
+            return true;
+        }
+        i = end + 1;
+    }
+    false
 }
 
 /// Literals on `p` named by the query, as alphabet tokens (i1 f1 i2 f2 s).
